@@ -73,6 +73,9 @@ class ResolvePortRefs(ElabPass):
             + list(module.instbundles.values())
         )
 
+        # Collect the `PortRef`s which current connections use inside slices and concatenations
+        self.nested_portrefs = nested_portrefs(instancelike)
+
         # Collect up all `PortRef`s for all instances in the module
         # FIXME: move from SetList to a regular Set. Thus far breaks one test, somehow.
         module_portrefs = SetList()
@@ -264,9 +267,10 @@ class ResolvePortRefs(ElabPass):
             noconn, portref = group
         else:
             portref, noconn = group
-        # References to the port from within slices and concatenations also are connections to it
-        if portref._slices or portref._concats:
-            msg = f"Invalid `NoConn` on {portref}, which is also referenced by {list(portref._slices) + list(portref._concats)} in {module}"
+        # References to the port from within slices and concatenations also are connections to it.
+        # Only those in use count: `portref._slices` and `_concats` also hold every one since replaced or disconnected.
+        if portref in self.nested_portrefs:
+            msg = f"Invalid `NoConn` on {portref}, which is also referenced in a slice or concatenation in {module}"
             self.fail(msg)
         return self.replace_noconn(module, portref=portref, noconn=noconn)
 
@@ -338,6 +342,31 @@ class SetList:
     @property
     def order(self):
         return self.list
+
+
+def nested_portrefs(instancelike: List["Instance"]) -> List[PortRef]:
+    """Collect the `PortRef`s referenced from inside the slices and concatenations
+    (directly connected, or members of connected anonymous bundles) among the connections of `instancelike`."""
+
+    found: List[PortRef] = list()
+
+    def walk(conn: Connectable, nested: bool) -> None:
+        if isinstance(conn, PortRef):
+            if nested:
+                found.append(conn)
+        elif isinstance(conn, Slice):
+            walk(conn.parent, True)
+        elif isinstance(conn, Concat):
+            for part in conn.parts:
+                walk(part, True)
+        elif isinstance(conn, AnonymousBundle):
+            for member in conn._namespace.values():
+                walk(member, nested)
+
+    for inst in instancelike:
+        for conn in inst.conns.values():
+            walk(conn, False)
+    return found
 
 
 def resolve_portref(pref: PortRef, to: Connectable) -> None:
